@@ -500,6 +500,7 @@ func runC12Join(c *Ctx) {
 			it.mem["$0."+field] = k4val{kind: 8, s: "MEM", ln: 2, cp: 2}
 			idx := map[string]int{}
 			nCalls := 0
+			xyIdx := map[string]int{} // members consulted through Point.XY(): their envelope is the point itself
 			it.onOpaque = func(name string, args []k4val) {
 				if strings.HasSuffix(name, ").Envelope") && len(args) == 1 {
 					k := name + "(" + args[0].String() + ")"
@@ -508,8 +509,31 @@ func runC12Join(c *Ctx) {
 						nCalls++
 					}
 				}
+				if name == "geom.(Point).XY" && len(args) == 1 {
+					k := name + "(" + args[0].String() + ")"
+					if _, ok := xyIdx[k]; !ok {
+						xyIdx[k] = nCalls
+						if nCalls < 2 {
+							box[nCalls][2], box[nCalls][3] = box[nCalls][0], box[nCalls][1]
+						}
+						nCalls++
+					}
+				}
 			}
 			it.answer = func(key string, isBool bool) (k4val, bool) {
+				for k, i := range xyIdx {
+					if !strings.HasPrefix(key, k) || i > 1 {
+						continue
+					}
+					switch key[len(k):] {
+					case "#1":
+						return k4val{kind: 1, b: ne[i]}, isBool
+					case "#0.X":
+						return k4val{kind: 2, f: box[i][0]}, !isBool
+					case "#0.Y":
+						return k4val{kind: 2, f: box[i][1]}, !isBool
+					}
+				}
 				for k, i := range idx {
 					if !strings.HasPrefix(key, k) || i > 1 {
 						continue
